@@ -658,3 +658,65 @@ def slice_join(c):
             acc_src = ("cat", acc_src, acc_len, qs) if acc_src is not None and qs is not None else None
             acc_len = acc_len + q.len
     return [(c.st, Seq(acc_len, None, None, None, acc_src))]
+
+
+@first(r"^core::slice::<impl \[.*\]>::binary_search$")
+def slice_binary_search(c):
+    """binary_search over a list whose elements are known one by one.  std's contract: on a list in ascending order the answer
+    is Ok(i) with list[i] == x when there is such an element and Err(insertion point) otherwise; on any other list the answer
+    is unspecified.  The path forks on the order of neighbouring elements; on an unordered list both answers are handed out and
+    the event `binary-search-unordered` is left on the trace, so a rule sees that the answer rests on an order nobody established."""
+    lst = c.deref(c.args[0])
+    x = c.deref(c.args[1])
+
+    def scalar(v):
+        n = 0
+        while isinstance(v, Struct) and len(v.f) == 1 and n < 3:
+            v = next(iter(v.f.values()))
+            n += 1
+        return v if isinstance(v, Num) else None
+    ok = lambda i: Enum(RESULT, {0: Struct({0: Num(Lin.const(i))})})
+    err = lambda i: Enum(RESULT, {1: Struct({0: Num(Lin.const(i))})})
+    if isinstance(lst, Seq) and isinstance(lst.items, Empty):
+        return [(c.st, err(0))]
+    xs = scalar(x)
+    es = [scalar(lst.items.f[i]) for i in sorted(lst.items.f)] if isinstance(lst, Seq) and is_listed(lst.items) else None
+    if not c.it.track_content or es is None or xs is None or any(e is None for e in es) or len(es) > 4:
+        st = c.st
+        i = c.it.fresh_num(st, 0, None, "bs_i")
+        if isinstance(lst, Seq):
+            st.sys.add_ge(lst.len - i.e)
+        event(st, "binary-search-unknown-list")
+        return [(st, Enum(RESULT, {0: Struct({0: i})})), (st.copy(), Enum(RESULT, {1: Struct({0: i})}))]
+    n = len(es)
+    out = []
+    # unordered somewhere: unspecified answer
+    for i in range(n - 1):
+        st = c.st.copy()
+        st.sys.add_ge(es[i].e - es[i + 1].e - 1)
+        if st.sys.bottom or not st.sys.feasible():
+            continue
+        event(st, "binary-search-unordered", i)
+        j = c.it.fresh_num(st, 0, n, "bs_i")
+        out.append((st, Enum(RESULT, {0: Struct({0: j})})))
+        st2 = st.copy()
+        out.append((st2, Enum(RESULT, {1: Struct({0: j})})))
+    # ascending
+    base = c.st.copy()
+    for i in range(n - 1):
+        base.sys.add_ge(es[i + 1].e - es[i].e)
+    if not (base.sys.bottom or not base.sys.feasible()):
+        for i in range(n):
+            st = base.copy()
+            st.sys.add_eq(es[i].e - xs.e)
+            if not (st.sys.bottom or not st.sys.feasible()):
+                out.append((st, ok(i)))
+        for p in range(n + 1):
+            st = base.copy()
+            if p > 0:
+                st.sys.add_ge(xs.e - es[p - 1].e - 1)
+            if p < n:
+                st.sys.add_ge(es[p].e - xs.e - 1)
+            if not (st.sys.bottom or not st.sys.feasible()):
+                out.append((st, err(p)))
+    return out
